@@ -14,6 +14,6 @@ void reg_masked() {}
 #if 0
 void reg_cpp() {}
 #endif
-#ifndef HAVE_DRV_MISC
+#if 0
 void reg_misc() {}
 #endif
